@@ -232,6 +232,9 @@ func (d *l2Deco) Lock(ctx context.Context, dur time.Duration, lk []*sop.LockKey)
 		return false, sop.NilUUID, nil
 	}
 	ok, id, err := d.L2Cache.Lock(ctx, dur, lk)
+	if d.t.LockResult != nil {
+		d.t.LockResult(ok && err == nil)
+	}
 	d.t.leave(s)
 	return ok, id, err
 }
@@ -244,6 +247,9 @@ func (d *l2Deco) DualLock(ctx context.Context, dur time.Duration, lk []*sop.Lock
 		return false, sop.NilUUID, nil
 	}
 	ok, id, err := d.L2Cache.DualLock(ctx, dur, lk)
+	if d.t.LockResult != nil {
+		d.t.LockResult(ok && err == nil)
+	}
 	d.t.leave(s)
 	return ok, id, err
 }
